@@ -119,7 +119,7 @@ class MosFile:
             'roElementAction': ElementAction,
         }
         for tag, subcls in tag_class_map.items():
-            if xml.find(tag):
+            if xml.find(tag) is not None:
                 if subcls == ElementAction:
                     return ElementAction._classify(xml)
                 return subcls(xml)
